@@ -113,6 +113,19 @@ Theorem c02_inlining_preserves_meaning :
       eval_dnf tags eval_atom sid d' = sem_dnf tags eval_atom sid fuel d.
 Proof. exact inline_preserves. Qed.
 
+(* the two halves together: parts compiled for the INLINED query (evaluated against the bitmaps) are
+   sound for the MEANING of the original query, so every theorem above holds with
+   sat := fun s => sem_dnf ... d, the meaning in which undecided streams are judged by the definitions *)
+Theorem c02_search_of_inlined_query_finds_the_meaning :
+  forall (atom tagname : Type) (tags : tagname -> option (tagdetails atom tagname))
+         (invert : dnf atom tagname -> dnf atom tagname) (eval_atom : stream -> atom -> bool) fuel d d' fs,
+    (forall s dd, eval_dnf tags (eval_atom s) (s_id s) (invert dd) = negb (eval_dnf tags (eval_atom s) (s_id s) dd)) ->
+    (forall s t td, tags t = Some td -> td_uncertain td (s_id s) = true -> td_any_uncertain td = true) ->
+    inline_dnf tags invert fuel d = Some d' ->
+    Forall (file_ok (fun s => eval_dnf tags (eval_atom s) (s_id s) d')) fs ->
+    Forall (file_ok (fun s => sem_dnf tags (eval_atom s) (s_id s) fuel d)) fs.
+Proof. exact file_ok_inlined. Qed.
+
 (* with a correct decided bit, `tag:t` means the definition of t whether the stream is decided or not *)
 Theorem c02_tag_means_definition_when_decided_bits_correct :
   forall (atom tagname : Type) (tags : tagname -> option (tagdetails atom tagname))
